@@ -139,10 +139,13 @@ def faults():
         add("category-with-placeholder", {"PLACEHOLDER_INVALID"}, set_at(B, (col, "HED", key), "Label/#"))
         add("category-with-placeholder", {"PLACEHOLDER_INVALID"}, set_at(B, (col, "HED", key), "(Red, Label/#)"))
     # 5 HED used as a column name
-    for entry in ({"HED": "Label/#"}, {"HED": {"a": "Red"}}, {"Description": "x"}):
+    for entry in ({"HED": "Label/#"}, {"HED": {"a": "Red"}}, {"Description": "x"}, "Label/#", "Red", None, 12, True, 1.5, "",
+                  [], ["Red"], {}, {"Levels": {"a": "x"}}):
         d = copy.deepcopy(B)
         d["HED"] = entry
         add("hed-as-column-name", {"SIDECAR_INVALID"}, d)
+        add("hed-as-column-name", {"SIDECAR_INVALID"}, dict([("HED", copy.deepcopy(entry))] + list(copy.deepcopy(B).items())))
+        add("hed-as-column-name", {"SIDECAR_INVALID"}, {"HED": copy.deepcopy(entry)})
     # 5b HED key nested inside a column without a top HED entry
     add("hed-key-nested", {"SIDECAR_INVALID"}, set_at(B, ("ign",), {"Levels": {"HED": "Red"}}))
     # 6 n/a as category key
